@@ -27,10 +27,17 @@ class Crate:
             raise CheckerError("anchor function missing in MIR facts: %s" % path)
         return self.mir[path]
 
-    def hir_fn(self, path):
+    def hir_fn(self, path, inline=True):
+        """HIR of an anchor function; by default with calls of private same-module helpers looked through (lib/hir.inlined_fn)"""
         if path not in self.hir:
             raise CheckerError("anchor function missing in HIR facts: %s" % path)
-        return self.hir[path]
+        if not inline:
+            return self.hir[path]
+        c = self.__dict__.setdefault("_inl", {})
+        if path not in c:
+            from lib import hir as H_
+            c[path] = H_.inlined_fn(self, path)
+        return c[path]
 
     def find_hir(self, suffix):
         c = [k for k in self.hir if k == suffix or k.endswith("::" + suffix)]
